@@ -62,16 +62,17 @@ const (
 	opELFSection
 	opValueEdit
 	opSysLine // systematic pass only
+	opArchiveEdit
 	nOps
 )
 
 var opNames = [nOps]string{"bitflip", "byteset", "trunc-random", "trunc-token", "line-delete", "line-dup", "line-swap",
 	"token-delete", "token-dup", "token-swap", "lenfield", "token-repeat", "deep-nest", "long-line", "splice", "number-edit",
-	"invalid-utf8", "chunk-delete", "chunk-dup", "keyword-insert", "continuation", "elf-section", "value-edit", "line-edit-systematic"}
+	"invalid-utf8", "chunk-delete", "chunk-dup", "keyword-insert", "continuation", "elf-section", "value-edit", "line-edit-systematic", "archive-edit"}
 
 // weights for text and for binary seeds
-var textWeights = [nOps]int{4, 6, 5, 6, 6, 5, 4, 7, 5, 4, 1, 5, 5, 2, 4, 7, 4, 3, 2, 4, 6, 0, 12, 0}
-var binWeights = [nOps]int{10, 9, 6, 2, 1, 1, 1, 2, 2, 2, 14, 2, 2, 1, 4, 2, 2, 5, 3, 1, 1, 12, 0, 0}
+var textWeights = [nOps]int{4, 6, 5, 6, 6, 5, 4, 7, 5, 4, 1, 5, 5, 2, 4, 7, 4, 3, 2, 4, 6, 0, 12, 0, 0}
+var binWeights = [nOps]int{10, 9, 6, 2, 1, 1, 1, 2, 2, 2, 14, 2, 2, 1, 4, 2, 2, 5, 3, 1, 1, 12, 0, 0, 14}
 
 const delims = "\n \t,:=\"'{}[]<>();/|@#&"
 
@@ -207,6 +208,11 @@ func mutateOnce(r *rand.Rand, b []byte, isBinary bool, other func() []byte) ([]b
 	out := append([]byte(nil), b...)
 	n := len(out)
 	switch op {
+	case opArchiveEdit:
+		if m, label, ok := archiveEdit(r, out, other); ok {
+			return m, op, label
+		}
+		return mutateLenFieldFallback(r, out), op, "archive-edit(not-zip:lenfield)"
 	case opValueEdit:
 		// structured-value mutation: parse as JSON / TOML / YAML, rewrite one string leaf with a separator-aware edit,
 		// serialise again (falls back to editing a token of the raw text)
